@@ -505,6 +505,9 @@ func Register(name string, f func()) { verifHarnesses[name] = f }
 type Pat struct{ mode, idx int }
 
 func Pattern(n, d int) Pat {
+	if verifParam("simple") == 2 {
+		return Pat{mode: 2} // every nilable field present
+	}
 	if d < verifParam("depth") || verifParam("simple") == 1 {
 		// nested value: every nilable field absent, or every one present
 		// (each type is explored in full as a top-level value)
@@ -543,3 +546,40 @@ func (p Pat) Has(i int) bool {
 // Free says whether the sizes of the i-th field's containers are chosen
 // freely (0..K) rather than fixed at K.
 func (p Pat) Free(i int) bool { return p.mode == 0 || p.mode == 3 }
+
+// CloneFresh returns a value of the same shape as n (same field ids, same
+// container sizes and binary lengths) with fresh symbolic leaves; sets and
+// map keys stay duplicate-free by assumption.
+func CloneFresh(n *Node) *Node {
+	c := &Node{T: n.T, KT: n.KT, VT: n.VT, IDs: n.IDs}
+	switch n.T {
+	case wire.TBool:
+		c.Num = uint64(verifB2I(verifBool()))
+	case wire.TI8:
+		c.Num = uint64(uint8(verifI8()))
+	case wire.TI16:
+		c.Num = uint64(uint16(verifI16()))
+	case wire.TI32:
+		c.Num = uint64(uint32(verifI32()))
+	case wire.TI64:
+		c.Num = verifU64()
+	case wire.TDouble:
+		c.Num = verifU64()
+		verifAssume(!verifIsNaN(verifF64frombits(c.Num)))
+	case wire.TBinary:
+		c.B = verifBytes(len(n.B))
+	}
+	for i, k := range n.Kids {
+		ck := CloneFresh(k)
+		if n.T == wire.TSet || n.T == wire.TMap {
+			for _, o := range c.Kids {
+				verifAssume(EqValue(o, ck) == 0)
+			}
+		}
+		c.Kids = append(c.Kids, ck)
+		if n.T == wire.TMap {
+			c.Vals = append(c.Vals, CloneFresh(n.Vals[i]))
+		}
+	}
+	return c
+}
